@@ -24,7 +24,7 @@ Inductive layout := L2d | LBandFirst | LBandLast.
 Definition layout_code (l : layout) : Z := match l with L2d => 0 | LBandFirst => 1 | LBandLast => 2 end.
 
 (** [gshape] = geobox.shape; [yaxis] = position of Y when the caller knows it
-    (write_cog / write_cog_layers pass the DataArray's ydim since fix a0aeca2).
+    (write_cog / write_cog_layers pass the DataArray's ydim since fix 1cabe7b).
     Result: layout and (nbands, h, w) of the band-first array handed to GDAL.
 
       if pix.ndim == 2: h, w = pix.shape; nbands = 1
